@@ -1,7 +1,8 @@
 /-
   Props/C02Slider.lean — C02, layer 3 completed: slider lines (helper lemmas in Lemmas/Slider*.lean).
 
-  * `path_string_roundtrip`: for every control-point list in the decidable class `SliderRt.RepPath` (first point the
+  * `path_string_roundtrip`: for every control-point list in the decidable class `SliderRt.RepPath` (decision procedure:
+    `SliderRt.decRepPath`, given decidable equality on the scalar and a decidable representability predicate; first point the
     origin and typed; the other points with representable integral absolute coordinates within ±131072; no repeated
     position where the decoder would split — in particular **not** a typed point that could be written implicitly
     repeating its predecessor, finding F17; no implicitly written Catmull segment; perfect curves of exactly three
